@@ -105,4 +105,19 @@ theorem grounded_class_is_the_grounded_extension (af : AF) (hwf : af.WF) :
       ∀ G, Grounded af G → ∀ x, x ∈ c.members ↔ AttackedBy af G x) :=
   Eq.grounded_class_is_grounded af hwf
 
+/-- non-vacuity: in the framework `0 → 1, 2 → 2` the unattacked argument 0 is in every complete extension, so the
+hypotheses of `grounded_arguments_together` (for 0) and of `defeated_arguments_together` (for 1) are met -/
+example : let af : AF := ⟨3, [(0, 1), (2, 2)]⟩
+    af.WF ∧ (∀ S, Complete af S → S 0 = true) ∧
+    (∃ c ∈ computeClasses af, c.kind = .grounded ∧ 0 ∈ c.members) ∧
+    (∃ c ∈ computeClasses af, c.kind = .defeated ∧ 1 ∈ c.members) := by
+  intro af
+  have hwf : af.WF := by
+    intro p hp
+    have : p = (0, 1) ∨ p = (2, 2) := by simpa [af] using hp
+    rcases this with rfl | rfl <;> simp [af]
+  have h0 : ∀ S, Complete af S → S 0 = true := fun S hS => unattacked_in af hwf 0 (by decide) S hS
+  exact ⟨hwf, h0, Eq.grounded_arguments_together af hwf 0 (by decide) h0,
+    Eq.defeated_arguments_together af hwf 0 1 (by decide) (by decide) h0 (by simp [af])⟩
+
 end Crusta.C19
